@@ -417,11 +417,23 @@ func genC07(g *G) {
 			t = g.Intn(n + 2)
 		}
 		ready := []string{}
-		for j, m := 0, g.Intn(9); j < m; j++ {
-			if g.Intn(5) == 0 {
-				ready = append(ready, itoa(g.Intn(10)))
-			} else {
-				ready = append(ready, holders[g.Intn(n)])
+		if g.Intn(3) != 0 { // around the Ready boundary: t, t+1 or t+2 distinct holders, plus the odd outsider
+			k := t + g.Intn(3)
+			for _, h := range c07RandPeers(g, 10) {
+				if c07Contains(holders, h) && k > 0 {
+					ready = append(ready, h)
+					k--
+				} else if g.Intn(6) == 0 {
+					ready = append(ready, h)
+				}
+			}
+		} else {
+			for j, m := 0, g.Intn(9); j < m; j++ {
+				if g.Intn(5) == 0 {
+					ready = append(ready, itoa(g.Intn(10)))
+				} else {
+					ready = append(ready, holders[g.Intn(n)])
+				}
 			}
 		}
 		g.Emit("subset", []string{"ecdsa", "frost"}[i%2], itoa(t), c07RandSid(g), joinOr(holders, ","), joinOr(ready, ","))
